@@ -439,6 +439,7 @@ class SimEnv:
                 cur = SimEnv.current
                 conn._tx = SimTx(cur)
                 conn._thread = _DummyThread()
+                cur.connections.append(conn)
 
             acore.Connection.__init__ = init
             acore.Connection._sim_patched = True
@@ -450,6 +451,27 @@ class SimEnv:
         FS.dirty = set()
         FS.root = jail + "/"
         loop.step_hooks.append(fs_flush)
+
+    def process_exit(self):
+        """Emulate what the OS does when the simulated process ends: sqlite
+        connections that were never closed go away (open transactions are
+        rolled back, locks released)."""
+        n = 0
+        for c in self.connections:
+            raw = getattr(c, "_connection", None)
+            if raw is not None:
+                try:
+                    raw.close()
+                except Exception:
+                    pass
+                c._connection = None
+                c._running = False
+                c._tx.dead = True
+                n += 1
+        self.connections = []
+        if n:
+            self.stats["sqlite_connections_closed_at_exit"] = self.stats.get("sqlite_connections_closed_at_exit", 0) + n
+        return n
 
     def wall(self):
         return EPOCH + self.loop._now
